@@ -188,14 +188,16 @@ pub fn project(w: &World) -> Value {
     }
     let mut fly = vec![];
     for (s, p) in w.fly.iter() {
-        fly.push(json!({"seq": s, "den": nm(&p.denom), "amt": num(p.amount), "rcv": nm(&p.receiver), "ch": p.channel}));
+        fly.push(json!({"seq": s, "den": nm(&p.denom), "amt": num(p.amount), "rcv": nm(&p.receiver), "ch": p.channel, "snd": nm(&p.sender)}));
     }
     let natb: Vec<Value> = w.nat_bal.iter().map(|(a, x)| json!({"a": nm(a), "x": num(*x)})).collect();
     let natl: Vec<Value> = w.nat_lst.iter().map(|(a, x)| json!({"a": nm(a), "x": num(*x)})).collect();
     let paid: Vec<Value> = w.led.paid.iter().map(|(b, x)| json!({"b": b, "x": num(*x)})).collect();
     let wdl: Vec<Value> = w.led.wdl.iter().map(|(b, x)| json!({"b": b, "x": num(*x)})).collect();
+    let t = project_treasury(w);
     json!({
         "now": w.now_s(),
+        "t": t,
         "c": c,
         "bank": bank,
         "sup": num(*w.supply.get(&lst_denom).unwrap_or(&0)),
@@ -209,4 +211,34 @@ pub fn project(w: &World) -> Value {
 pub fn ibc_denom_name() -> &'static str {
     let _ = IBC_DENOM;
     "IBCTIA"
+}
+
+pub fn project_treasury(w: &World) -> Value {
+    if !w.t_inst {
+        return json!({"inst": false, "admin": "", "pending": "", "minTime": -1, "trader": "", "routes": []});
+    }
+    let nm = |s: &str| w.names.nm(s);
+    let q = w.treasury_query();
+    let st = w.tstore.m.get(b"state".as_slice()).and_then(|b| serde_json::from_slice::<Value>(b).ok()).unwrap_or(Value::Null);
+    let routes: Vec<Value> = q["allowed_swap_routes"]
+        .as_array()
+        .map(|a| {
+            a.iter()
+                .map(|r| {
+                    json!(r.as_array().map(|h| h.iter().map(|x| json!({"pool": x["pool_id"], "din": x["token_in_denom"], "dout": x["token_out_denom"]})).collect::<Vec<_>>()).unwrap_or_default())
+                })
+                .collect()
+        })
+        .unwrap_or_default();
+    json!({
+        "inst": true,
+        "admin": nm(q["admin"].as_str().unwrap_or("")),
+        "pending": match st.get("pending_owner") { Some(Value::String(s)) => nm(s), _ => String::new() },
+        "minTime": match st.get("owner_transfer_min_time") {
+            Some(Value::String(s)) => json!((s.parse::<u128>().unwrap_or(0) / 1_000_000_000) as u64),
+            _ => json!(-1),
+        },
+        "trader": nm(q["trader"].as_str().unwrap_or("")),
+        "routes": routes,
+    })
 }
